@@ -202,7 +202,7 @@ theorem featsInner {o : TypeSystem} (ho : Hist o) (t : TypeRec) (hto : find? o t
 
 theorem featsOuter {o : TypeSystem} (ho : Hist o) (ho2 : Hist2 o) (hw : Writable Gen.consts o) :
     ∀ (L : List TypeRec) (ts : TypeSystem), (∀ t ∈ L, t ∈ fullRecs Gen.consts o) → EInv o ts → RegLe o ts →
-      ∃ ts', (L.map (renderTypeDecl Gen.consts)).foldlM (featsStep Gen.consts) ts = .ok ts' ∧ EInv o ts' ∧
+      ∃ ts', (L.map (renderTypeDecl0 Gen.consts)).foldlM (featsStep Gen.consts) ts = .ok ts' ∧ EInv o ts' ∧
         Grow Gen.consts ts ts' ∧
         ∀ t ∈ L, ∃ t', find? ts' t.name = some t' ∧ ∀ f ∈ t.own, ∃ g ∈ eff t', featureEq g f = true := by
   intro L
@@ -220,10 +220,10 @@ theorem featsOuter {o : TypeSystem} (ho : Hist o) (ho2 : Hist2 o) (hw : Writable
     obtain ⟨ts', h2, hi2, hg2, hcov2⟩ :=
       ih ts1 (fun x hx => hsub x (List.mem_cons_of_mem _ hx)) hi1 (regLe_grow hreg hg1)
     obtain ⟨t0, ht0⟩ := (hasExact_iff_find _ _).mp (hreg _ ((hasExact_iff_find _ _).mpr ⟨t, hto⟩))
-    have hstep : featsStep Gen.consts ts (renderTypeDecl Gen.consts t) = .ok ts1 := by
+    have hstep : featsStep Gen.consts ts (renderTypeDecl0 Gen.consts t) = .ok ts1 := by
       unfold featsStep
-      have hn : (renderTypeDecl Gen.consts t).name = t.name := rfl
-      have hfs : (renderTypeDecl Gen.consts t).feats = t.own.map (renderFeatDecl Gen.consts) := rfl
+      have hn : (renderTypeDecl0 Gen.consts t).name = t.name := rfl
+      have hfs : (renderTypeDecl0 Gen.consts t).feats = t.own.map (renderFeatDecl Gen.consts) := rfl
       simp only [hn, hfs, getType_of_find ht0, find?_name ht0, bind, Except.bind]
       exact h1
     refine ⟨ts', ?_, hi2, hg1.trans hg2, ?_⟩
